@@ -74,8 +74,84 @@ def shards(tier, seed):
                 for part in range(nparts):
                     out.append(dict(kind="chunked", func=func, dtype=dtype, engine="numpy", n=3, method=method,
                                     part=part, nparts=nparts, tier=tier))
+    # 2-D labels reduced along one of their two axes: every slice has its own absent labels and its own member counts
+    for func in ("sum", "nanmax", "count", "nanmean"):
+        for shp in ((2, 2),) if tier == "quick" else ((2, 2), (2, 3)):
+            nparts = 1 if shp == (2, 2) else 9
+            for part in range(nparts):
+                out.append(dict(kind="partial", func=func, dtype="float64", engine="numpy", n=int(np.prod(shp)), shape=list(shp),
+                                part=part, nparts=nparts, tier=tier))
     out.sort(key=lambda s: (0 if s["engine"] == "numbagg" else 1, 0 if s["kind"] == "chunked" else 1))
     return out
+
+
+def run_partial(res, shard):
+    """expected_groups, fill_value and min_count for 2-D labels reduced along one axis, eager and chunked: each index of the
+    kept axis is one 1-D problem with its own absent labels (flox documents min_count=1 as the default for partial axes)."""
+    import dask.array as da
+
+    func, shp = shard["func"], tuple(shard["shape"])
+    size = int(np.prod(shp))
+    V = space.value_matrix((1.0, -2.0, float("nan")), size, "float64")
+    B = V.shape[0]
+    Vn = V.reshape((B,) + shp)
+    requested = [0.0, 1.0, 2.0]
+    labs = [lt for lt in itertools.product((0.0, 1.0, float("nan")), repeat=size)]
+    labs = [lt for i, lt in enumerate(labs) if i % shard["nparts"] == shard["part"]]
+    fill = -7.0
+    for lt in labs:
+        labels = np.array(lt, dtype=float).reshape(shp)
+        for axis, mc in itertools.product((-1, -2), (None, 1, 2, 3)):
+            kw = dict(func=func, engine="numpy", expected_groups=np.array(requested), fill_value=fill, axis=axis)
+            if mc is not None:
+                kw["min_count"] = mc
+            variants = [(None, None)] + [(g, "map-reduce") for g in itertools.product(*[space.compositions(k) for k in shp]) if any(len(c) > 1 for c in g)]
+            for grid, method in variants:
+                arr = Vn if grid is None else da.from_array(Vn, chunks=((B,),) + tuple(grid))
+                out = e1.call_reduce(arr, labels, **(kw if grid is None else dict(kw, method=method)))
+                res.evaluations += B
+                res.states += B
+                res.transitions += 1
+                case = dict(leg="partial", func=func, label_shape=list(shp), labels=list(lt), axis=axis, min_count=mc, fill=fill,
+                            grid=[list(g) for g in grid] if grid else None, method=method)
+                tags = dict(leg2="partial", func=func, axis=axis, min_count=str(mc), chunked=grid is not None)
+                sz = size * 10 + (sum(len(g) for g in grid) if grid else 0)
+                if out.kind == "refused":
+                    res.outcomes[f"refused:{out.exc}"] += 1
+                    continue
+                if out.kind == "error":
+                    res.outcomes[f"error:{out.exc}"] += 1
+                    res.violate("slots-error", case, out.brief(), "a result with one slot per requested label", tags=dict(tags, kind="error", exc=out.exc), size=sz)
+                    continue
+                res.compared += B
+                if not rm.same_labels(out.groups[0], requested):
+                    res.violate("slots-labels", case, dict(groups=out.groups[0]), dict(groups=requested), tags=dict(tags, kind="labels"), size=sz)
+                    continue
+                kept = shp[0] if axis == -1 else shp[1]
+                obs = np.asarray(out.result)
+                if obs.shape != (B, kept, len(requested)):
+                    res.violate("slots-shape", case, dict(shape=list(obs.shape)), dict(shape=[B, kept, len(requested)]), tags=dict(tags, kind="shape"), size=sz)
+                    continue
+                ok = True
+                for i in range(kept):
+                    sub = Vn[:, i, :] if axis == -1 else Vn[:, :, i]
+                    lab = tuple((labels[i, :] if axis == -1 else labels[:, i]).tolist())
+                    exp, sc, present, cnt, either, numpy_exp, fillarr = slot_expectation(func, sub, lab, requested, fill, 1 if mc is None else mc)
+                    bad = e1.compare(obs[:, i, :], exp, sc, rtol=1e-12)
+                    if bad is not None:
+                        row, g = bad
+                        slot = "absent" if not present[g] else ("below-min_count" if cnt[row, g] < (1 if mc is None else mc) else "present")
+                        res.outcomes["mismatch"] += 1
+                        res.violate("slots-value", dict(case, values=sub[row], kept_index=i, slot_label=requested[g], slot_kind=slot),
+                                    obs[:, i, :][bad], exp[bad], tags=dict(tags, kind="value", slot=slot), size=sz)
+                        ok = False
+                        break
+                    if any(x != x for x in lab) or len(set(lab)) < 2:
+                        res.nontrivial += B
+                if ok:
+                    res.outcomes["ok"] += 1
+    res.sample(dict(leg="partial", func=func, label_shape=list(shp), axis=[-1, -2], min_count=[None, 1, 2, 3], fill_value=fill, expected_groups=requested))
+    return res
 
 
 def fills_for(func):
@@ -192,6 +268,8 @@ def check_point(res, func, dtype, engine, lab_tuple, exname, sort, fillname, min
 def run_shard(shard):
     e1.reset_flox_caches()
     res = Result()
+    if shard["kind"] == "partial":
+        return run_partial(res, shard)
     func, dtype, engine, n = shard["func"], shard["dtype"], shard["engine"], shard["n"]
     alphabet = space.alphabet_for(dtype, small=True)
     fills = fills_for(func)
@@ -255,6 +333,8 @@ def replay(payload):
 
     res = Result()
     c = payload["case"]
+    if c.get("leg") == "partial":
+        return run_partial(res, dict(func=c["func"], shape=c["label_shape"], part=0, nparts=1))
     lt = tuple(unjson_float(c["labels"]))
     V = space.value_matrix(space.alphabet_for(c["dtype"], small=True), len(lt), c["dtype"])
     check_point(res, c["func"], c["dtype"], c["engine"], lt, c["expected_groups"], c["sort"], c["fill"], c["min_count"], V,
